@@ -29,47 +29,44 @@ Definition narrower_than_operator : list string := ["filter_indexed"; "map"; "mu
 Definition listed (l : list string) (e : entry) : bool := mem (ename e) l.
 
 Lemma table_guards : forallb (guards_in K39) fluent_table = true.
-Proof. vm_compute. reflexivity. Qed.
+Proof. vm_cast_no_check (eq_refl true). Qed.
 
-Lemma table_ok : forallb ok39 (filter (fun e => negb (listed known_mismatch e)) fluent_table) = true.
-Proof. vm_compute. reflexivity. Qed.
-
+(* exactly the listed methods fail the check (one evaluation of the check on all entries) *)
 Lemma table_known_fail : map ename (filter (fun e => negb (ok39 e)) fluent_table) = known_mismatch.
-Proof. vm_compute. reflexivity. Qed.
+Proof. vm_cast_no_check (eq_refl known_mismatch). Qed.
+
+Lemma table_ok : forall e, In e fluent_table -> ~ In (ename e) known_mismatch -> ok39 e = true.
+Proof.
+  intros e Hin Hn. destruct (ok39 e) eqn:Hok; [reflexivity|]. exfalso. apply Hn.
+  rewrite <- table_known_fail.
+  apply (in_map ename (filter (fun e => negb (ok39 e)) fluent_table) e).
+  apply (proj2 (filter_In (fun e => negb (ok39 e)) e fluent_table)).
+  split; [exact Hin | rewrite Hok; reflexivity].
+Qed.
 
 Lemma table_positional : forallb (fun e => pos39 e && negb (has_varpos (esig e)))
                                  (filter (listed keyword_name_only) fluent_table) = true.
-Proof. vm_compute. reflexivity. Qed.
+Proof. vm_cast_no_check (eq_refl true). Qed.
 
 Lemma table_narrower :
-  map ename (filter (fun e => ok39 e && negb (entry_sig_same op_table e)) fluent_table)
+  map ename (filter (fun e => negb (listed known_mismatch e) && negb (entry_sig_same op_table e)) fluent_table)
   = narrower_than_operator.
-Proof. vm_compute. reflexivity. Qed.
+Proof. vm_cast_no_check (eq_refl narrower_than_operator). Qed.
 
 Lemma table_names_unique : nodupb (map ename fluent_table) = true /\ nodupb (map oname op_table) = true.
-Proof. vm_compute. split; reflexivity. Qed.
+Proof. split; vm_cast_no_check (eq_refl true). Qed.
 
 Lemma table_every_method_has_operator :
   forallb (fun e => match find_op op_table (ename e) with Some _ => true | None => false end) fluent_table = true.
-Proof. vm_compute. reflexivity. Qed.
+Proof. vm_cast_no_check (eq_refl true). Qed.
 
 (* ---- theorems over the generated table --------------------------------------- *)
-Lemma filter_listed : forall l e, In e fluent_table -> ~ In (ename e) l ->
-  In e (filter (fun e => negb (listed l e)) fluent_table).
-Proof.
-  intros l e Hin Hn. apply filter_In. split; [exact Hin|].
-  unfold listed. destruct (mem (ename e) l) eqn:Hm; [|reflexivity].
-  apply mem_In in Hm. contradiction.
-Qed.
-
 Lemma forwarding : forall e, In e fluent_table -> ~ In (ename e) known_mismatch ->
   forall c b, bind (esig e) c = Some b ->
   exists r, meth39 e c = Some r /\ dir39 (ename e) c = Some r.
 Proof.
   intros e Hin Hn c b Hb.
-  pose proof table_ok as H. rewrite forallb_forall in H.
-  specialize (H e (filter_listed _ _ Hin Hn)).
-  exact (forward_sound _ _ _ _ _ table_guards H c b Hb).
+  exact (forward_sound _ _ _ _ _ table_guards (table_ok e Hin Hn) c b Hb).
 Qed.
 
 Lemma forwarding_checked : forall e, In e fluent_table -> ok39 e = true ->
@@ -82,12 +79,15 @@ Lemma exactness : forall e, In e fluent_table -> ~ In (ename e) known_mismatch -
   forall c, meth39 e c = dir39 (ename e) c.
 Proof.
   intros e Hin Hn Hw c.
-  pose proof table_ok as H. rewrite forallb_forall in H.
-  specialize (H e (filter_listed _ _ Hin Hn)).
-  apply (exact_sound _ _ _ _ _ table_guards H).
+  apply (exact_sound _ _ _ _ _ table_guards (table_ok e Hin Hn)).
   destruct (entry_sig_same op_table e) eqn:Hs; [reflexivity|]. exfalso. apply Hw.
-  rewrite <- table_narrower. apply in_map. apply filter_In. split; [exact Hin|].
-  rewrite H, Hs. reflexivity.
+  rewrite <- table_narrower.
+  apply (in_map ename (filter (fun e => negb (listed known_mismatch e) && negb (entry_sig_same op_table e))
+                              fluent_table) e).
+  apply (proj2 (filter_In (fun e => negb (listed known_mismatch e) && negb (entry_sig_same op_table e))
+                          e fluent_table)).
+  split; [exact Hin|]. rewrite Hs. unfold listed.
+  destruct (mem (ename e) known_mismatch) eqn:Hm; [apply mem_In in Hm; contradiction | reflexivity].
 Qed.
 
 Lemma positional_forwarding : forall e, In e fluent_table -> In (ename e) keyword_name_only ->
@@ -135,7 +135,7 @@ Definition refutes (n : string) (c : call) : bool :=
   end.
 
 Lemma table_refuted : forallb (fun n => refutes n (witness n)) known_mismatch = true.
-Proof. vm_compute. reflexivity. Qed.
+Proof. vm_cast_no_check (eq_refl true). Qed.
 
 Lemma mismatch_refuted : forall n, In n known_mismatch ->
   exists e c b, find_entry fluent_table n = Some e /\ bind (esig e) c = Some b
@@ -157,4 +157,4 @@ Lemma table_narrower_witness :
                     | Some e => match meth39 e (narrow_witness n), dir39 n (narrow_witness n) with
                                 | None, Some _ => true | _, _ => false end
                     | None => false end) narrower_than_operator = true.
-Proof. vm_compute. reflexivity. Qed.
+Proof. vm_cast_no_check (eq_refl true). Qed.
